@@ -214,7 +214,7 @@ func c10Body(x *engine.Exec, pos c10Position, cons int, ev model.Event, isKey bo
 			}
 			mark := buf.Len()
 			if raw != nil {
-				r.fp = model.Fingerprint(raw, model.FPOpts{Skip: c17IdleSkip})
+				r.fp = model.Fingerprint(raw, model.FPOpts{Skip: c17IdleSkip, DepthsOnly: true})
 			}
 			stop := len(evs)
 			if cons == 3 || cons == 4 || cons == 12 {
